@@ -102,6 +102,16 @@ def apalache_part(pid, tier, out):
     out.setdefault("extra_cov", {})["apalache_inductive_invariant"] = all(x["holds"] for x in res)
 
 
+def _seg_trace(d, gid):
+    import glob
+    for sp in sorted(glob.glob(os.path.join(d, "tr", "shard_*.json"))):
+        with open(sp) as f:
+            sh = json.load(f)
+        if gid in sh["gids"]:
+            return sh["traces"][sh["gids"].index(gid)]
+    return None
+
+
 def seg_part(pid, tier, out):
     """interrupted executions (start(k), resume(u) ...): the property's clauses
     on the traces of the pause/resume batch"""
@@ -115,7 +125,14 @@ def seg_part(pid, tier, out):
         if v["gid"] in seen or len(seen) >= 10:
             continue
         seen.add(v["gid"])
-        path = core.write_replay(pid, "segtrace", {"kind": "note", "property": pid, "verdict": v})
+        tr = _seg_trace(d, v["gid"])
+        if tr is not None:
+            clauses = sorted({x["what"] for x in mine if x["gid"] == v["gid"]})
+            path = core.write_replay(pid, "segtrace", {"kind": "trace", "property": pid, "clauses": clauses,
+                                                        "first_step": v["l"], "cfg": tr["cfg"], "segs": tr["segs"],
+                                                        "perm": -1, "tag": "seg"})
+        else:
+            path = core.write_replay(pid, "segtrace", {"kind": "note", "property": pid, "verdict": v})
         out["violations"].append(("clause %s fails in an interrupted execution (pause/resume) at event %d" % (v["what"], v["l"]), path))
     out["extra_traces"] = out.get("extra_traces", 0) + res.get("ntraces", 0)
     out.setdefault("extra_cov", {})["interrupted_traces_validated"] = res.get("ntraces", 0)
@@ -456,6 +473,10 @@ def replay(rp, path):
         data = {"plan": [], "config": [], "delay": [], "runtime": [], "unitrun": [], "exhaustive": False}
         try:
             rec = rp["record"]
+            import contextlib, io
+            _quiet = contextlib.ExitStack()
+            _quiet.enter_context(contextlib.redirect_stdout(io.StringIO()))
+            _quiet.enter_context(contextlib.redirect_stderr(io.StringIO()))
             if rp["which"] == "plan":
                 data["plan"] = [pure.run_plan(rec["x"], wd)]
             elif rp["which"] == "config":
@@ -465,6 +486,7 @@ def replay(rp, path):
             else:
                 full = pure.build("quick", 0, which=(rp["which"],))
                 data[rp["which"]] = full[rp["which"]]
+            _quiet.close()
             p = os.path.join(wd, "pure.json")
             json.dump(data, open(p, "w"))
             r = core.run_tlc("Pure", "SPECIFICATION PSpec\nCHECK_DEADLOCK FALSE\n", workers=1,
@@ -479,5 +501,9 @@ def replay(rp, path):
             return 1
         print("not reproduced on the current tree")
         return 0
+    if rp.get("kind") == "note":
+        print("this record only describes the failing clause:", json.dumps(rp.get("verdict")))
+        print("VIOLATION property=%s replay=%s" % (rp.get("property"), path))
+        return 1
     print("unknown replay kind", rp.get("kind"))
     return 2
